@@ -232,18 +232,54 @@ impl C08 {
     }
 }
 
+impl C08 {
+    /// the btor2 files shipped with the repository, as far as the reference reader covers them
+    fn corpus(&self, sh: &mut Shard, rng: &mut Rng, n: usize) {
+        let files = super::c11::corpus_files();
+        let Some(path) = files.get(n) else { return };
+        let Ok(text) = std::fs::read_to_string(path) else { return };
+        let name = util::short_path(&path.to_string_lossy());
+        sh.count("corpus_files", 1);
+        if text.len() > 400_000 {
+            sh.count("corpus_files_skipped_for_size", 1);
+            return;
+        }
+        let b = match B2::load(&text) {
+            Ok(b) => b,
+            Err(r) => {
+                // outside the fragment the reference reader implements (or deliberately malformed test input)
+                let why = format!("{r:?}");
+                sh.hist("corpus_files_outside_the_reference_reader", why.split(['(', ' ']).next().unwrap_or("?"));
+                return;
+            }
+        };
+        let mut ctx = Context::default();
+        match util::catch(|| patronus::btor2::parse_str(&mut ctx, &text, Some("corpus"))) {
+            Err(p) if p.in_harness() => sh.inconclusive(format!("harness panic {} {}", p.loc(), p.msg)),
+            Err(p) => sh.violation(format!("C08|corpus|panic|{}", p.loc()), format!("parse_str panicked on {name} at {}: {}", p.loc(), util::trunc(&p.msg, 200)), json!({"file": name})),
+            Ok(None) => sh.violation(format!("C08|corpus|rejected|{name}"), format!("parse_str rejected {name}, which the reference reader considers well-formed ({})", rejection_cause(&b)), json!({"file": name})),
+            Ok(Some(sys)) => {
+                if self.compare(sh, rng, &format!("file: {name}"), &b, &ctx, &sys, 3) {
+                    sh.count("corpus_files_compared", 1);
+                    sh.distinct(util::hash_str(&text));
+                }
+            }
+        }
+    }
+}
+
 impl Check for C08 {
     fn id(&self) -> &'static str {
         "C08"
     }
     fn work(&self, tier: Tier) -> Vec<WorkItem> {
-        vec![WorkItem { mode: "directed", count: DIRECTED.len() as u64 }, WorkItem { mode: "gen", count: tier.pick(300_000, 15_000_000) }]
+        vec![WorkItem { mode: "directed", count: DIRECTED.len() as u64 }, WorkItem { mode: "gen", count: tier.pick(300_000, 15_000_000) }, WorkItem { mode: "corpus", count: super::c11::corpus_files().len() as u64 }]
     }
     fn evaluations_counter(&self) -> &'static str {
         "values_compared"
     }
     fn rule(&self) -> String {
-        "G3(a) grammar-directed well-formed btor2 files (1-3 inputs, 1-4 states incl. arrays, 4-40 operator lines over every supported operator, negated operand ids, const/constd/consth/zero/one/ones, sorts declared lazily, non-consecutive ids, names/comments); each file is read by the independent reference interpreter R5 (text level) and by parse_str; inputs/states matched positionally (states without init/next are demoted to inputs, as documented), sorts compared, and every output/bad/constraint/init/next evaluated on 6 corner-biased valuations by R2 on the parsed system vs R5 on the referenced line. Plus 2 ill-sorted variants per file: one numeric token (sort id, operand id, width, slice bound) changed; if R5's BTOR2 sort checker says the declared sort disagrees with the operands, parse_str must not return a system; variants that stay well-sorted are judged as new files. distinct_nontrivial = distinct generated files (all have >= 4 operator lines).".into()
+        "G3(a) grammar-directed well-formed btor2 files (1-3 inputs, 1-4 states incl. arrays, 4-40 operator lines over every supported operator, negated operand ids, const/constd/consth/zero/one/ones, sorts declared lazily, non-consecutive ids, names/comments); each file is read by the independent reference interpreter R5 (text level) and by parse_str; inputs/states matched positionally (states without init/next are demoted to inputs, as documented), sorts compared, and every output/bad/constraint/init/next evaluated on 6 corner-biased valuations by R2 on the parsed system vs R5 on the referenced line. Plus 2 ill-sorted variants per file: one numeric token (sort id, operand id, width, slice bound) changed; if R5's BTOR2 sort checker says the declared sort disagrees with the operands, parse_str must not return a system; variants that stay well-sorted are judged as new files. mode corpus: every btor2 file under /repo/inputs (<= 400 kB) that R5 can read is compared in the same way on 3 valuations (files using constructs outside R5 are counted per reason, not judged). distinct_nontrivial = distinct generated files (all have >= 4 operator lines) + corpus files.".into()
     }
     fn assumptions(&self) -> Vec<String> {
         vec!["R5 is the arbiter of well-formed / ill-sorted (BTOR2 paper typing rules); only undebatable constant spellings are generated".into()]
@@ -255,6 +291,10 @@ impl Check for C08 {
     }
     fn run_case(&self, sh: &mut Shard, case: &CaseId) {
         let mut rng = Rng::new(sh.case_seed());
+        if case.mode == "corpus" {
+            self.corpus(sh, &mut rng, case.n as usize);
+            return;
+        }
         let (text, ops) = if case.mode == "directed" {
             match DIRECTED.get(case.n as usize) {
                 Some(t) => (t.to_string(), vec![]),
@@ -367,6 +407,7 @@ impl Check for C08 {
         let min_neg = all_ops.iter().filter(|o| !matches!(**o, "read" | "write")).map(|o| m.h("operators_with_negated_operand", o)).min().unwrap_or(0);
         m.floor("least-used operator: occurrences with a negated operand", min_neg, tier.pick(100, 5_000));
         m.floor("ill-sorted variants judged", m.c("illsorted_variants"), tier.pick(50_000, 2_500_000));
+        m.floor("shipped btor2 files compared with the reference reading", m.c("corpus_files_compared"), 100);
     }
 }
 
